@@ -646,6 +646,7 @@ def do_replay(prop, path, log):
         return 1
     with Lock("build"):
         ok_h, out_h = build_harness(log, pid)
+        run_gen(prop, log)          # the generated definitions must describe the tree being replayed on
         ok_m, msg_m = build_modelrun(prop, log)
     if not ok_h or not ok_m:
         print("build failed", out_h[-2000:], msg_m)
